@@ -7,18 +7,18 @@ var table = map[string]propSpec{
 	"C10": {Level: "exploration", Parts: []partSpec{{Name: "c10-tokens", Bin: "p:c10"}, {Name: "c10-mutate", Bin: "p:c10"}, {Name: "c10-roundtrip", Bin: "p:c10"}, {Name: "c10-calls", Bin: "p:c10"}}},
 	"C11": {Level: "exploration", Parts: []partSpec{{Name: "c11-complete", Bin: "p:c11"}, {Name: "c11-sound", Bin: "p:c11"}, {Name: "ws-gate", Bin: "p:ws"}}},
 	"C15": {Level: "model_checking", Parts: []partSpec{{Name: "c15-cache", Bin: "inst"}, {Name: "c15-cache-stmt", Bin: "stmt"}, {Name: "c15-race", Bin: "race"}}},
-	"C16": {Level: "model_checking", Parts: []partSpec{{Name: "c16-replies", Bin: "inst"}, {Name: "cache-bfs", Bin: "p:cache"}}},
+	"C16": {Level: "model_checking", Parts: []partSpec{{Name: "c16-replies", Bin: "inst"}, {Name: "cache-bfs", Bin: "p:cache"}, {Name: "cache-big", Bin: "p:cache"}}},
 	"C17": {Level: "model_checking", Parts: []partSpec{{Name: "c17-limits", Bin: "inst"}}},
 	"C18": {Level: "model_checking", Parts: []partSpec{{Name: "c18-stateful", Bin: "inst"}}},
 	"C19": {Level: "model_checking", Parts: []partSpec{{Name: "c19-prom", Bin: "inst"}}},
 	"C20": {Level: "exploration", Parts: []partSpec{{Name: "c20-routing", Bin: "p:c20"}, {Name: "c20-roundtrip", Bin: "p:c20"}, {Name: "c20-concurrent", Bin: "stmt"}}},
-	"C03": {Level: "model_checking", Parts: []partSpec{{Name: "cache-bfs", Bin: "p:cache"}}},
+	"C03": {Level: "model_checking", Parts: []partSpec{{Name: "cache-bfs", Bin: "p:cache"}, {Name: "cache-big", Bin: "p:cache"}}},
 	"C04": {Level: "model_checking", Parts: []partSpec{{Name: "cache-bfs", Bin: "p:cache"}, {Name: "c15-cache", Bin: "inst"}}},
 	"C05": {Level: "model_checking", Parts: []partSpec{{Name: "cache-bfs", Bin: "p:cache"}, {Name: "c15-cache", Bin: "inst"}}},
 	"C06": {Level: "model_checking", Parts: []partSpec{{Name: "sqlite-bfs", Bin: "p:sqlite"}}},
 	"C12": {Level: "exploration", Parts: []partSpec{{Name: "ws-gate", Bin: "p:ws"}, {Name: "ws-output", Bin: "p:ws"}}},
 	"C13": {Level: "model_checking", Parts: []partSpec{{Name: "c13-handlers", Bin: "inst"}, {Name: "ws-stall", Bin: "p:ws"}}},
-	"C14": {Level: "fault_enumeration", Parts: []partSpec{{Name: "sqlite-fault", Bin: "p:sqlite"}, {Name: "sqlite-reopen", Bin: "p:sqlite"}, {Name: "sqlite-retry", Bin: "p:sqlite"}, {Name: "sqlite-bigbatch", Bin: "p:sqlite"}}},
+	"C14": {Level: "fault_enumeration", Parts: []partSpec{{Name: "sqlite-fault", Bin: "p:sqlite"}, {Name: "sqlite-reopen", Bin: "p:sqlite"}, {Name: "sqlite-retry", Bin: "p:sqlite"}, {Name: "sqlite-bigbatch", Bin: "p:sqlite"}, {Name: "sqlite-bfs", Bin: "p:sqlite"}}},
 	"C07": {Level: "model_checking", Parts: []partSpec{{Name: "c07-router", Bin: "inst"}}},
 	"C08": {Level: "model_checking", Parts: []partSpec{{Name: "c08-merge", Bin: "inst"}}},
 	"C09": {Level: "model_checking", Parts: []partSpec{{Name: "c09-merge", Bin: "inst"}, {Name: "engine-selfcheck", Bin: "inst"}}},
